@@ -28,25 +28,72 @@ Definition dg_inv (d : dgraph) : Prop :=
 
 Definition names_ok (V : list string) : Prop := NoDup V /\ Forall (fun v => v <> EmptyString) V.
 
-(* what one analysed statement guarantees, against the derivation of the same statement *)
+(* what a result r of the analysis (started with delta graph d) guarantees against the derivation
+   results dv cs = (matrix or failure, index) of the same piece of program, for every choice vector *)
+Definition sim_res (V : list string) (d : dgraph) (r : cr) (dv : list nat -> dres) : Prop :=
+  dg_inv (cr_dg r) /\
+  incl (DeltaGraph.dg_recorded d) (DeltaGraph.dg_recorded (cr_dg r)) /\
+  rel_ok V (cr_rel r) /\
+  forall cs, in_domain cs ->
+    let c := choice_of_list cs in
+    let m := fst (dv cs) in
+    let idx' := snd (dv cs) in
+    (* a choice at which the piece has a derivation is not newly excluded (also on early exit) *)
+    (forall A, m = Some A -> cov (cr_dg r) c -> cov d c) /\
+    (* early exit is only taken when every choice is excluded *)
+    (cr_exit r = true -> cov (cr_dg r) c) /\
+    (cr_exit r = false ->
+       cr_index r = idx' /\
+       (m = None -> cov (cr_dg r) c) /\
+       (forall A, m = Some A -> clean (cr_rel r) c /\ eqV V (rval (cr_rel r) c) A)).
+
 Definition stmt_sim (V : list string) (fuel index : nat) (s : stmt) (d : dgraph) : Prop :=
-  forall r, compute fuel index s d = ROk r ->
-    dg_inv (cr_dg r) /\
-    incl (DeltaGraph.dg_recorded d) (DeltaGraph.dg_recorded (cr_dg r)) /\
-    rel_ok V (cr_rel r) /\
-    forall cs, in_domain cs ->
-      let c := choice_of_list cs in
-      let m := fst (derive fuel V s cs index) in
-      let idx' := snd (derive fuel V s cs index) in
-      (* a choice at which the statement has a derivation is not newly excluded (also on early exit) *)
-      (forall A, m = Some A -> cov (cr_dg r) c -> cov d c) /\
-      (cr_exit r = false ->
-         cr_index r = idx' /\
-         (m = None -> cov (cr_dg r) c) /\
-         (forall A, m = Some A -> clean (cr_rel r) c /\ eqV V (rval (cr_rel r) c) A)).
+  forall r, compute fuel index s d = ROk r -> sim_res V d r (fun cs => derive fuel V s cs index).
 
 Definition main_sim_stmt : Prop :=
   forall V fuel index s d, names_ok V -> incl (stmt_vars s) V -> dg_inv d -> stmt_sim V fuel index s d.
+
+(* the accumulated relation of a statement list, against the accumulated derivation *)
+Definition acc_ok (V : list string) (d : dgraph) (acc : rel) (accm : list nat -> option smat) : Prop :=
+  rel_ok V acc /\
+  forall cs, in_domain cs ->
+    (forall A, accm cs = Some A -> finite_on V A /\ clean acc (choice_of_list cs) /\ eqV V (rval acc (choice_of_list cs)) A) /\
+    (accm cs = None -> cov d (choice_of_list cs)).
+
+(* hypotheses on the element-wise analysis [rec] / derivation [drec] used by the list lemmas *)
+Definition rec_ok (V : list string) (l : list stmt)
+           (rec : nat -> stmt -> dgraph -> res cr) (drec : list nat -> stmt -> nat -> dres) : Prop :=
+  (forall s index d r, In s l -> dg_inv d -> rec index s d = ROk r -> sim_res V d r (fun cs => drec cs s index)) /\
+  (forall s cs idx A, In s l -> fst (drec cs s idx) = Some A -> finite_on V A).
+
+Definition seq_compound_sim_stmt : Prop :=
+  forall V rec drec l index acc d accm r, names_ok V -> rec_ok V l rec drec -> dg_inv d -> acc_ok V d acc accm ->
+    seq_compound rec l index acc d = ROk r ->
+    sim_res V d r (fun cs => dlist (drec cs) V l (accm cs) index).
+
+Definition seq_branch_sim_stmt : Prop :=
+  forall V rec drec l index acc d accm r, names_ok V -> rec_ok V l rec drec -> dg_inv d -> acc_ok V d acc accm ->
+    seq_branch rec l index acc d = ROk r ->
+    sim_res V d r (fun cs => dlist (drec cs) V l (accm cs) index).
+
+(* closing a while loop / a counted for loop around an analysed body *)
+Definition close_while_sim_stmt : Prop :=
+  forall V d rb dv r, names_ok V -> sim_res V d rb dv -> cr_exit rb = false ->
+    (forall cs A, fst (dv cs) = Some A -> finite_on V A) ->
+    close_while rb = ROk r ->
+    sim_res V d r (fun cs => (d_while V (fst (dv cs)), snd (dv cs))).
+
+Definition close_for_sim_stmt : Prop :=
+  forall V d rb dv x r, names_ok V -> sim_res V d rb dv -> cr_exit rb = false ->
+    (forall cs A, fst (dv cs) = Some A -> finite_on V A) ->
+    In x V -> ~ In x (rvars (cr_rel rb)) ->
+    close_for x rb = ROk r ->
+    sim_res V d r (fun cs => (d_for V x (fst (dv cs)), snd (dv cs))).
+
+(* the relation of an analysed statement only mentions the statement's variables *)
+Definition compute_vars_stmt : Prop :=
+  forall fuel index s d r, compute fuel index s d = ROk r ->
+    forall v, In v (rvars (cr_rel r)) -> In v (stmt_vars s).
 
 (* derivations only produce finite matrices *)
 Definition derive_finite_stmt : Prop :=
